@@ -586,7 +586,7 @@ func main() {
 			{"sha256", profiles[1], []int{2, 3, 4, 5}, 4, all},
 			{"murmur3", profiles[0], six, 5, all},
 			{"murmur3", profiles[1], six, 5, all},
-			{"murmur3", profiles[2], six, 5, all},
+			{"murmur3", profiles[2], []int{0, 2, 3, 4, 5}, 4, all},
 		}
 	} else {
 		cfgs = []config{
@@ -597,12 +597,12 @@ func main() {
 		}
 	}
 	run.Rule = "one evaluation = one real GetOrderedNodes call; enumerated: every key of the key space x every node set (all subsets up to the size bound of the label universe) x every insertion permutation of the set x every single-node RemoveNode(+re-AddNode) x every single-node AddNode, per hasher and weight profile; a case is distinct/non-trivial when it is a different (hasher, weights, resulting order) with >= 2 nodes"
-	run.Assume("small-scope: node sets of size <= 4 (quick) / <= 5 (thorough) drawn from 4 (quick) / 6 (thorough) of 6 fixed labels (volume paths and host:port addresses); weights uniform 100 and two fixed mixed profiles over {1,100,1000}")
+	run.Assume("small-scope: node sets of size <= 4 (quick) / <= 5 (thorough) drawn from 4 (quick) / 6 (thorough) of 6 fixed labels (volume paths and host:port addresses); weights uniform 100, two fixed mixed profiles over {1,100,1000} and (for the rehash-forcing hasher) two all-different profiles")
 	run.Assume("keys: all 65536 four-hex keys, all 256 two-hex keys, a fixed table of 64-hex keys; only well-formed (even-length) hex keys -- Score is NaN for undecodable keys and the statement does not define an order for them")
 	run.Assume("reference score: own murmur3-x64-128 (cross-checked at startup against spaolacci/murmur3 on all tail lengths), low 53 bits / 2^53, rehash of the 8 hash bytes when those bits are zero, -w/ln(f); sha256 variant: 256-bit integer rounded to 53 bits / (2^256-1); reference and implementation both use math.Log of the Go runtime")
 	run.Assume("the rehash-on-zero branch of UInt64ToFloat64 cannot be reached with murmur3 on this key space (needs 53 zero bits); it is exercised through a wrapper hasher that clears the low 53 bits of a quarter of the first-level hashes (never of the 8-byte re-hash input); that configuration uses all-different weights because zeroed hashes keep only their top 11 bits as re-hash input and equal-weight nodes would tie artificially")
 
-	deadline := time.Now().Add(50 * time.Second)
+	deadline := time.Now().Add(55 * time.Second)
 	if run.Thorough() {
 		deadline = time.Now().Add(13 * time.Minute)
 	}
